@@ -11,7 +11,7 @@ META = {
     'level': 'exploration',
     'technique': 'history + executable array model: every reply and the complete tag state after every request compared with an independent sequential model; requests encoded/decoded by the reference codec',
     'text': 'Random configurations (all 13 element types, scalars and arrays up to 1200 elements, auto-allocated tags and tags bound to @class/instance/attribute with several tags sharing an '
-            'instance and two tags aliasing one attribute) are given to the real simulator, both through the in-process frame pipeline and through the real main(argv) tag-argument parser '
+            'instance, two tags aliasing one attribute, and pairs of ISO-8859-1 names such as Maß / MASS that only a too-broad caseless comparison identifies) are given to the real simulator, both through the in-process frame pipeline and through the real main(argv) tag-argument parser '
             'over TCP. Histories of Read/Write Tag [Fragmented] and Get/Set Attribute Single requests, by symbolic name (case varied) and by numeric path, at every kind of start '
             'index and count and with compatible narrower source types, are executed; each reply (status, extended status, type, data) and after each request the whole tag state '
             '(in-process inspection; over TCP additionally a second session every 10 requests) must equal the array model.',
@@ -22,7 +22,7 @@ RULE = ('a case = one request in a history on one configuration (reply compared 
         'non-trivial = the request addressed an existing tag and a reply was decoded and compared')
 ASSUMPTIONS = ['reply budget 488 bytes (Logix.MAX_BYTES default)', 'string arrays kept <= 5 elements (the budget arithmetic for variable-length elements is an estimate in the library)']
 REQUIRED = ['requests', 'service:read_tag', 'service:read_frag', 'service:write_tag', 'service:write_frag', 'service:get_attribute_single', 'service:set_attribute_single',
-            'path:symbolic', 'path:numeric', 'path:case-varied', 'tag:scalar', 'tag:array', 'tag:larger-than-one-reply', 'tag:shared-instance', 'tag:aliased-attribute',
+            'path:symbolic', 'path:numeric', 'path:case-varied', 'tag:scalar', 'tag:array', 'tag:larger-than-one-reply', 'tag:shared-instance', 'tag:aliased-attribute', 'tag:latin1-near-homonyms',
             'status:0x00', 'status:0x06', 'status:0xff', 'monitor:state-compare', 'monitor:reply-compare', 'tcp:configs', 'tcp:second-session-compare',
             'type:' + 'STRING', 'type:BOOL', 'type:LREAL', 'type:ULINT', 'write:narrower-source-type']
 TIMEOUT = {'quick': 300, 'thorough': 2400}
@@ -158,6 +158,10 @@ def run(ctx):
             break
         tcp = (i % 4 == 0)
         cfg = gen_cfg(rng, big=(i % 3 == 1), share=(i % 2 == 0))
+        if i % 3 == 2:
+            from vlib import reqgen
+            cfg = reqgen.add_latin1_pair(rng, cfg[:4])
+            ctx.count('tag:latin1-near-homonyms')
         run_history(ctx, cfg, rng.choice([30, 60, 120]) if not quick else 50, tcp)
 
 
